@@ -87,3 +87,297 @@ Proof.
   intros Hw (k & p & x & Hp & Hl & Hx & Hn). apply Hn.
   destruct (wi_owned _ Hw k p Hp Hl) as [Ho _]. destruct (Ho x Hx) as (e & He & Hk & _). by exists e.
 Qed.
+
+(** ** a boolean checker of well-formed histories *)
+Definition name_ok_b (s : str) : bool := negb (Keys.is_empty s) && negb (contains_char Keys.us s).
+Definition wf_pod_b (p : pod) : bool :=
+  name_ok_b (pd_ns p) && name_ok_b (pd_name p) && negb (Keys.is_empty (pd_uid p)) &&
+  match pd_kind p with KBare => true | _ => name_ok_b (pd_app p) end && negb (contains_char Keys.us (pd_pool p)).
+
+Lemma wf_pod_b_sound p : wf_pod_b p = true → wf_pod p.
+Proof.
+  unfold wf_pod_b. rewrite !andb_true_iff. intros [[[[H1 H2] H3] H4] H5]. constructor.
+  - by apply small_name_ok'.
+  - by apply small_name_ok'.
+  - intros E. rewrite E in H3. discriminate H3.
+  - destruct (pd_kind p); try exact I; by apply small_name_ok'.
+  - apply contains_char_false. by apply negb_true_iff.
+Qed.
+
+Definition uid_ne_b (u : str) (q : pod) : bool := negb (str_eqb (pd_uid q) u).
+Definition uid_fresh_b (w : world) (u : str) : bool :=
+  forallb (λ kq : pkey * pod, uid_ne_b u kq.2) (map_to_list (w_pods w)) &&
+  forallb (λ kq : pkey * pod, uid_ne_b u kq.2) (map_to_list (w_lister w)) &&
+  forallb (uid_ne_b u) (w_queue w).
+
+Lemma uid_ne_b_sound u q : uid_ne_b u q = true → pd_uid q ≠ u.
+Proof. unfold uid_ne_b. rewrite negb_true_iff. by destruct (str_eqb_spec (pd_uid q) u). Qed.
+
+Lemma uid_fresh_b_sound w u : uid_fresh_b w u = true → uid_fresh w u.
+Proof.
+  unfold uid_fresh_b. rewrite !andb_true_iff, !forallb_forall. intros [[H1 H2] H3]. split_and!.
+  - intros k q Hq. apply uid_ne_b_sound. apply (H1 (k, q)). apply elem_of_list_In. by apply elem_of_map_to_list.
+  - intros k q Hq. apply uid_ne_b_sound. apply (H2 (k, q)). apply elem_of_list_In. by apply elem_of_map_to_list.
+  - apply Forall_forall. intros q Hq. apply uid_ne_b_sound, H3. by apply elem_of_list_In.
+Qed.
+
+Definition keeps_live_b (w : world) (conf : list json) : bool :=
+  match decode_pools conf with
+  | None => true
+  | Some ps => forallb (λ kp : pkey * pod, finished kp.2 || forallb (configured ps) (pd_ips kp.2)) (map_to_list (w_pods w))
+  end.
+
+Lemma keeps_live_b_sound w conf : keeps_live_b w conf = true → keeps_live w conf.
+Proof.
+  unfold keeps_live_b, keeps_live. intros H ps Eps k p x Hp Hfin Hx. rewrite Eps in H.
+  rewrite forallb_forall in H. specialize (H (k, p)). cbn [snd] in H. rewrite Hfin in H. cbn [orb] in H.
+  rewrite forallb_forall in H. apply H; [|by apply elem_of_list_In].
+  apply elem_of_list_In. by apply elem_of_map_to_list.
+Qed.
+
+Definition keyobj_eqb (a b : Keys.keyobj) : bool :=
+  str_eqb (Keys.ko_key a) (Keys.ko_key b) && str_eqb (Keys.ko_type a) (Keys.ko_type b) &&
+  str_eqb (Keys.ko_ns a) (Keys.ko_ns b) && str_eqb (Keys.ko_app a) (Keys.ko_app b) &&
+  str_eqb (Keys.ko_pod a) (Keys.ko_pod b) && str_eqb (Keys.ko_pool a) (Keys.ko_pool b).
+
+Lemma keyobj_eqb_sound a b : keyobj_eqb a b = true → a = b.
+Proof.
+  unfold keyobj_eqb. rewrite !andb_true_iff. intros [[[[[H1 H2] H3] H4] H5] H6].
+  destruct a, b; cbn in *. f_equal; by apply KeysP.str_eqb_eq.
+Qed.
+
+Definition nil_b {A} (l : list A) : bool := match l with [] => true | _ => false end.
+
+Definition wf_op_b (w : world) (o : pop) : bool :=
+  match o with
+  | PEnv (EPodPut p) => wf_pod_b p && nil_b (pd_ips p) && nil_b (pd_node p) && uid_fresh_b w (pd_uid p)
+  | PEnv (EPodPhase key ph) => match w_pods w !! key with
+                               | Some q => negb (finished q) || (ph =? 2) || (ph =? 3)
+                               | None => true
+                               end
+  | PEnv _ => true
+  | PBind _ _ uid _ _ _ => negb (Keys.is_empty uid)
+  | PApiRelease k _ _ _ => keyobj_eqb k (Keys.parse_key (Keys.ko_key k))
+  | PIpam (OConfigure conf _ delfail) => nil_b delfail && keeps_live_b w conf
+  | PIpam _ => false
+  | PRestart conf => keeps_live_b w conf
+  | _ => true
+  end.
+
+Lemma wf_op_b_sound w o : wf_op_b w o = true → wf_op w o.
+Proof.
+  destruct o as [e|key nodes orc fl|ns name uid node orc fl|n orc oun fl|ip orc ocl fl|k ip ocl fl|key fl|io|conf];
+    cbn [wf_op_b wf_op]; try done.
+  - destruct e as [p|key|key ph|key|key r|key r|name r|n]; cbn [wf_env]; try done.
+    + rewrite !andb_true_iff. intros [[[H1 H2] H3] H4]. split_and!.
+      * by apply wf_pod_b_sound.
+      * by destruct (pd_ips p).
+      * by destruct (pd_node p).
+      * by apply uid_fresh_b_sound.
+    + intros H q Hq Hfin. rewrite Hq, Hfin in H. cbn [negb orb] in H.
+      apply orb_true_iff in H. destruct H as [H|H]; apply N.eqb_eq in H; auto.
+  - intros H E. by rewrite E in H.
+  - apply keyobj_eqb_sound.
+  - destruct io; try done. rewrite andb_true_iff. intros [H1 H2]. split; [by destruct delfail|by apply keeps_live_b_sound].
+  - apply keeps_live_b_sound.
+Qed.
+
+Fixpoint wf_hist_b (w : world) (ops : list pop) : bool :=
+  match ops with
+  | [] => true
+  | o :: r => wf_op_b w o && wf_hist_b (pstep w o).1 r
+  end.
+
+Lemma wf_hist_b_sound ops : ∀ w, wf_hist_b w ops = true → wf_hist w ops.
+Proof.
+  induction ops as [|o r IH]; intros w; cbn [wf_hist_b wf_hist]; [done|].
+  rewrite andb_true_iff. intros [H1 H2]. split; [by apply wf_op_b_sound|by apply IH].
+Qed.
+
+(** ** concrete histories
+    Configuration: one pool 10.100.0.2~10.100.0.9, routable from 10.1.0.0/24 and 10.2.0.0/24;
+    node1 = 10.1.0.7, node2 = 10.2.0.9; no cloud provider.  10.100.0.2 = 174325762. *)
+Definition conf1 : list json :=
+  [JObj [(L "nodeSubnets", JArr [JStr (L "10.1.0.0/24"); JStr (L "10.2.0.0/24")]);
+         (L "ips", JArr [JStr (L "10.100.0.2~10.100.0.9")]);
+         (L "subnet", JStr (L "10.100.0.0/24"));
+         (L "gateway", JStr (L "10.100.0.1"));
+         (L "vlan", JNum 2%Z)]].
+Definition nodes1 : gmap str N := list_to_map [(L "node1", 167837703); (L "node2", 167903241)].
+
+(** a pod of the statefulset ns1/web *)
+Definition spod (name uid : string) (rs : list (list range)) : pod :=
+  {| pd_ns := L "ns1"; pd_name := L name; pd_uid := L uid; pd_kind := KSts; pd_app := L "web"; pd_pool := [];
+     pd_policy := 0; pd_ranges := rs; pd_phase := 0; pd_node := []; pd_ips := [] |}.
+Definition web0 : pkey := (L "ns1", L "web-0").
+Definition web1 : pkey := (L "ns1", L "web-1").
+Definition orc (f c : option N) (l : list N) : oracle := {| o_first := f; o_choice := c; o_order := l |}.
+Definition ip2 : N := 174325762.
+Definition ip3 : N := 174325763.
+Definition ip5 : N := 174325765.
+
+(** the results of the steps of a history (to inspect a witness: no step of the old-flag runs below is [RStuck]) *)
+Fixpoint trace_fl (f1 f2 f13 : bool) (w : world) (ops : list pop) : list pout :=
+  match ops with
+  | [] => []
+  | o :: r => (pstep_fl f1 f2 f13 w o).2 :: trace_fl f1 f2 f13 (pstep_fl f1 f2 f13 w o).1 r
+  end.
+Definition is_stuck (r : pout) : bool := match r with RStuck => true | _ => false end.
+
+(** *** non-vacuity: well-formed histories with one / two live bound pods *)
+Definition h_one : list pop := [
+  PIpam (OConfigure conf1 false []);
+  PEnv (EStsSet (L "ns1", L "web") (Some 2));
+  PEnv (EPodPut (spod "web-0" "uA" []));
+  PEnv (EInformer web0);
+  PFilter web0 [L "node1"] (orc None None []) no_faults;
+  PBind (L "ns1") (L "web-0") (L "uA") (L "node1") (orc None (Some ip2) []) no_faults ].
+Definition h_two : list pop := h_one ++ [
+  PEnv (EPodPhase web0 1);
+  PEnv (EPodPut (spod "web-1" "uC" []));
+  PEnv (EInformer web1);
+  PFilter web1 [L "node1"] (orc None None []) no_faults;
+  PBind (L "ns1") (L "web-1") (L "uC") (L "node1") (orc None (Some ip3) []) no_faults ].
+
+Lemma h_one_live : wf_hist (world0 false nodes1) h_one ∧
+  let w := prun (world0 false nodes1) h_one in
+  ∃ k p, w_pods w !! k = Some p ∧ live_bound p ∧ pd_ips p = [ip2] ∧
+         ∃ e, i_alloc (w_ipam w) !! ip2 = Some e ∧ e_key e = L "sts_ns1_web_web-0" ∧ e_uid e = L "uA".
+Proof.
+  split; [apply wf_hist_b_sound; vm_compute; reflexivity|].
+  exists web0. eexists. split; [vm_compute; reflexivity|].
+  split; [split; [reflexivity|discriminate]|]. split; [reflexivity|].
+  eexists. split; [vm_compute; reflexivity|]. split; vm_compute; reflexivity.
+Qed.
+
+Lemma h_two_live : wf_hist (world0 false nodes1) h_two ∧
+  let w := prun (world0 false nodes1) h_two in
+  ∃ k1 k2 p q, k1 ≠ k2 ∧ w_pods w !! k1 = Some p ∧ w_pods w !! k2 = Some q ∧ live_bound p ∧ live_bound q ∧
+               pd_ips p = [ip2] ∧ pd_ips q = [ip3].
+Proof.
+  split; [apply wf_hist_b_sound; vm_compute; reflexivity|].
+  exists web0, web1. eexists. eexists. split; [discriminate|].
+  split; [vm_compute; reflexivity|]. split; [vm_compute; reflexivity|].
+  split; [split; [reflexivity|discriminate]|]. split; [split; [reflexivity|discriminate]|].
+  split; reflexivity.
+Qed.
+
+(** *** F1: a late delete event of an earlier incarnation releases the IP of the new incarnation
+    A (web-0, uA) is bound to ip2 and finishes; its finish event is handled (IP released, default
+    policy); A is deleted and B (web-0, uB) created; the informer catches up (A's delete event is queued);
+    B is filtered and bound to ip2; then A's delete event is handled. *)
+Definition h_f1 : list pop := [
+  PIpam (OConfigure conf1 false []);
+  PEnv (EStsSet (L "ns1", L "web") (Some 2));
+  PEnv (EPodPut (spod "web-0" "uA" []));
+  PEnv (EInformer web0);
+  PFilter web0 [L "node1"] (orc None None []) no_faults;
+  PBind (L "ns1") (L "web-0") (L "uA") (L "node1") (orc None (Some ip2) []) no_faults;
+  PEnv (EPodPhase web0 2);
+  PEnv (EInformer web0);                                   (* finish event of A queued *)
+  PEvent 0 (orc None None [ip2]) [] no_faults;             (* handled: ip2 released *)
+  PEnv (EPodDelete web0);
+  PEnv (EPodPut (spod "web-0" "uB" []));
+  PEnv (EInformer web0);                                   (* uid changed: delete event of A queued *)
+  PFilter web0 [L "node1"] (orc None None []) no_faults;
+  PBind (L "ns1") (L "web-0") (L "uB") (L "node1") (orc None (Some ip2) []) no_faults;
+  PEvent 0 (orc None None [ip2]) [] no_faults ].           (* A's delete event: f1 = false releases B's ip2 *)
+(** ... and a third pod C (web-1, uC) is then bound to the same IP while B is live *)
+Definition h_f1c : list pop := h_f1 ++ [
+  PEnv (EPodPut (spod "web-1" "uC" []));
+  PEnv (EInformer web1);
+  PFilter web1 [L "node1"] (orc None None []) no_faults;
+  PBind (L "ns1") (L "web-1") (L "uC") (L "node1") (orc None (Some ip2) []) no_faults ].
+
+(** *** F2: Bind works on the informer's stale object of the earlier incarnation
+    A bound to ip2; A deleted, B created; the informer still shows A; Bind(uid B) proceeds on A's object
+    and stores A's uid with B's IP; the informer catches up; A's delete event passes the F1 test. *)
+Definition h_f2 : list pop := [
+  PIpam (OConfigure conf1 false []);
+  PEnv (EStsSet (L "ns1", L "web") (Some 1));
+  PEnv (EPodPut (spod "web-0" "uA" []));
+  PEnv (EInformer web0);
+  PFilter web0 [L "node1"] (orc None None []) no_faults;
+  PBind (L "ns1") (L "web-0") (L "uA") (L "node1") (orc None (Some ip2) []) no_faults;
+  PEnv (EPodDelete web0);
+  PEnv (EPodPut (spod "web-0" "uB" []));
+  PFilter web0 [L "node1"] (orc (Some ip2) None []) no_faults;
+  PBind (L "ns1") (L "web-0") (L "uB") (L "node1") (orc (Some ip2) None []) no_faults;   (* current code: RErr *)
+  PEnv (EInformer web0);                                   (* delete event of A queued *)
+  PEvent 0 (orc None None [ip2]) [] no_faults ].
+
+(** *** F13: the stored-UID guard of Bind only looked at the IPs about to be re-used
+    (the history the real code ran, translated by the harness)
+    A requests [[10.100.0.2]], bound; A deleted; B (same name) requests [[10.100.0.5]] and is bound: the key
+    now holds both IPs, stored for uA and uB; a resync item for A's IP finds "not running" and releases
+    every IP of the key. *)
+Definition h_f13 : list pop := [
+  PIpam (OConfigure conf1 false []);
+  PEnv (EStsSet (L "ns1", L "web") (Some 1));
+  PEnv (EPodPut (spod "web-0" "uA" [[(ip2, ip2)]]));
+  PEnv (EInformer web0);
+  PFilter web0 [L "node1"] (orc None None []) no_faults;
+  PBind (L "ns1") (L "web-0") (L "uA") (L "node1") (orc None (Some ip2) []) no_faults;
+  PEnv (EPodDelete web0);
+  PEnv (EPodPut (spod "web-0" "uB" [[(ip5, ip5)]]));
+  PEnv (EInformer web0);                                   (* uid changed: A's delete event is queued *)
+  PFilter web0 [L "node1"] (orc None None []) no_faults;
+  PBind (L "ns1") (L "web-0") (L "uB") (L "node1") (orc None None []) no_faults;   (* current code: RErr "waiting" *)
+  PEnv (EPodPhase web0 1);
+  PResync ip2 (orc None None [ip2; ip5]) [] no_faults ].
+
+Lemma witnesses_wf : wf_hist (world0 false nodes1) h_f1 ∧ wf_hist (world0 false nodes1) h_f1c ∧
+  wf_hist (world0 false nodes1) h_f2 ∧ wf_hist (world0 false nodes1) h_f13.
+Proof. split_and!; apply wf_hist_b_sound; vm_compute; reflexivity. Qed.
+
+(** every oracle of the old-flag runs is valid: no step is stuck *)
+Lemma witnesses_not_stuck :
+  existsb is_stuck (trace_fl false true true (world0 false nodes1) h_f1c) = false ∧
+  existsb is_stuck (trace_fl true false true (world0 false nodes1) h_f2) = false ∧
+  existsb is_stuck (trace_fl true true false (world0 false nodes1) h_f13) = false.
+Proof. split_and!; vm_compute; reflexivity. Qed.
+
+Ltac violates k x :=
+  exists k; eexists; exists x; split; [vm_compute; reflexivity|];
+  split; [split; [reflexivity|discriminate]|]; split; [apply elem_of_list_here|];
+  let e := fresh "e" in let He := fresh "He" in intros (e & He & _); vm_compute in He; discriminate He.
+
+Lemma live_bound_owned_refuted_late_event : ∃ nodes ops, wf_hist (world0 false nodes) ops ∧
+  violates_c04 (prun_fl false true true (world0 false nodes) ops).
+Proof. exists nodes1, h_f1. split; [apply witnesses_wf|]. violates web0 ip2. Qed.
+
+Lemma live_bound_owned_refuted_stale_lister : ∃ nodes ops, wf_hist (world0 false nodes) ops ∧
+  violates_c04 (prun_fl true false true (world0 false nodes) ops).
+Proof. exists nodes1, h_f2. split; [apply witnesses_wf|]. violates web0 ip2. Qed.
+
+Lemma live_bound_owned_refuted_mixed_uid : ∃ nodes ops, wf_hist (world0 false nodes) ops ∧
+  violates_c04 (prun_fl true true false (world0 false nodes) ops).
+Proof. exists nodes1, h_f13. split; [apply witnesses_wf|]. violates web0 ip5. Qed.
+
+(** with the repairs in place none of these (nor any other well-formed) history violates the property *)
+Lemma wf_hist_harmless provider nodes ops : wf_hist (world0 provider nodes) ops →
+  ¬ violates_c04 (prun (world0 provider nodes) ops) ∧
+  ¬ violates_c04 (prun_fl true true true (world0 provider nodes) ops).
+Proof. intros H. rewrite prun_fl_cur. split; apply winv_not_violates, winv_reachable, H. Qed.
+
+Lemma witnesses_harmless :
+  ¬ violates_c04 (prun (world0 false nodes1) h_f1) ∧ ¬ violates_c04 (prun (world0 false nodes1) h_f1c) ∧
+  ¬ violates_c04 (prun (world0 false nodes1) h_f2) ∧ ¬ violates_c04 (prun (world0 false nodes1) h_f13).
+Proof.
+  destruct witnesses_wf as (H1 & H2 & H3 & H4).
+  exact (conj (proj1 (wf_hist_harmless _ _ _ H1)) (conj (proj1 (wf_hist_harmless _ _ _ H2))
+        (conj (proj1 (wf_hist_harmless _ _ _ H3)) (proj1 (wf_hist_harmless _ _ _ H4))))).
+Qed.
+
+(** C01: under the F1 defect two live pods end up with the same IP *)
+Lemma live_pods_disjoint_refuted_late_event : ∃ nodes ops, wf_hist (world0 false nodes) ops ∧
+  ∃ k1 k2 p q x, let w := prun_fl false true true (world0 false nodes) ops in
+    w_pods w !! k1 = Some p ∧ w_pods w !! k2 = Some q ∧ k1 ≠ k2 ∧ live_bound p ∧ live_bound q ∧
+    x ∈ pd_ips p ∧ x ∈ pd_ips q.
+Proof.
+  exists nodes1, h_f1c. split; [apply witnesses_wf|].
+  exists web0, web1. eexists. eexists. exists ip2. cbv zeta.
+  split; [vm_compute; reflexivity|]. split; [vm_compute; reflexivity|]. split; [discriminate|].
+  split; [split; [reflexivity|discriminate]|]. split; [split; [reflexivity|discriminate]|].
+  split; apply elem_of_list_here.
+Qed.
